@@ -910,7 +910,7 @@ fn main() {
             emit_case(case_text(&feed, &data, &[b.to_vec()]));
         }
     }
-    let n = if o.thorough() { 12_000 } else { 450 };
+    let n = if o.thorough() { 40_000 } else { 1_500 };
     let mut rng = Rng::new(o.seed ^ 0xC18);
     for _ in 0..n {
         let s = rng.next();
